@@ -814,14 +814,22 @@ func (r *reader) read(src []byte) {
 		case stringMode:
 			r.partial("string not terminated")
 		case runeMode:
-			r.raise("rune not terminated")
+			r.partial("rune not terminated")
 		case escMode:
-			r.raise("escaped character not terminated")
+			r.partial("escaped character not terminated")
 		case symbolMode:
-			r.raise("|symbol| not terminated")
+			r.partial("|symbol| not terminated")
 		case charMode:
+			if len(r.carry) == 0 && r.pos == r.tokenStart {
+				r.partial("character not terminated")
+			}
 			r.pushChar(src)
 		case intMode:
+			// Nothing, a sign or a numerator only after the radix prefix so far.
+			if tail := r.pos - r.tokenStart; (tail == 0 && len(r.carry) == 0) ||
+				(0 < tail && strings.IndexByte("+-/", src[r.pos-1]) >= 0) {
+				r.partial("number not terminated")
+			}
 			r.pushInteger(src)
 		case bitVectorMode:
 			token := r.makeToken(src)
